@@ -1,35 +1,78 @@
 // ---- parser invariants (C09, C12, C19) ----
 
+/// [A-size] machine arithmetic: the line counter and the column counter of a data row (at most 64 per token) cannot
+/// overflow a usize. A text would need more than 2^57 tokens to break this.
+spec fn size_ok(line: usize, ntoks: nat) -> bool { line + 64 * ntoks <= usize::MAX }
+
+
 impl<'a> Parser<'a> {
-    /// everything but the token stream and the line counter is unchanged
+    /// all tokens of the statement part, the number already consumed, the current token, how many are left
+    spec fn all(&self) -> Seq<Token> { self.iter.all() }
+    spec fn pos(&self) -> int { self.iter.pos() }
+    spec fn cur(&self) -> Token { self.iter.all()[self.iter.pos()] }
+    spec fn left(&self) -> nat { (self.iter.all().len() - self.iter.pos()) as nat }
+    /// number of tokens consumed since `o`
+    spec fn consumed(&self, o: &Self) -> int { self.iter.pos() - o.iter.pos() }
+    /// C19: the line counter minus the line breaks consumed so far: the line on which the statement part starts
+    spec fn line_base(&self) -> int { self.line - count_eol(self.iter.all(), self.iter.pos()) }
+
+    /// everything but the token position and the line counter is unchanged
     spec fn same_tables(&self, o: &Self) -> bool {
         self.input == o.input && self.signals == o.signals && self.virtual_signals == o.virtual_signals
             && self.expected_inputs == o.expected_inputs && self.expected_outputs == o.expected_outputs && self.vars == o.vars
+            && self.iter.all() == o.iter.all()
     }
-    /// Eof has not been consumed, the token stream is as the lexer contract says, the scope set is well formed,
-    /// and the line counter cannot overflow
+    /// the token stream is as the lexer contract says and the counters cannot overflow
+    spec fn ginv(&self) -> bool {
+        &&& 0 <= self.iter.pos() <= self.iter.all().len()
+        &&& stream_ok(self.iter.all(), self.input)
+        &&& size_ok(self.line, self.left())
+    }
+    /// additionally Eof has not been consumed and the scope set is well formed
     spec fn pinv(&self) -> bool {
-        &&& self.iter.toks().len() > 0
-        &&& stream_ok(self.iter.toks(), self.input)
+        &&& self.ginv()
+        &&& self.iter.pos() < self.iter.all().len()
         &&& self.vars.map.wf()
-        &&& self.line + self.iter.toks().len() <= usize::MAX
     }
-}
-
-impl<'a> Parser<'a> {
     /// the state after consuming one token of `o`
     spec fn advanced(&self, o: &Self) -> bool {
         &&& self.same_tables(o)
-        &&& o.iter.toks().len() > 0
-        &&& self.iter.toks() == o.iter.toks().skip(1)
+        &&& 0 <= o.iter.pos() < o.iter.all().len()
+        &&& self.iter.pos() == o.iter.pos() + 1
         // C19: the line counter counts the line breaks consumed
-        &&& self.line == o.line + (if o.iter.toks()[0].kind == TokenKind::Eol { 1int } else { 0int })
-        &&& stream_ok(self.iter.toks(), self.input)
-        &&& self.line + self.iter.toks().len() <= usize::MAX
-        &&& valid_span(o.input, o.iter.toks()[0].span)
-        &&& (o.iter.toks()[0].kind != TokenKind::Eof ==> self.iter.toks().len() > 0 && o.iter.toks()[0].span.end <= self.iter.toks()[0].span.start)
-        &&& (o.iter.toks()[0].kind == TokenKind::Eof ==> self.iter.toks().len() == 0)
-        &&& ((o.iter.toks()[0].kind == TokenKind::HexInt || o.iter.toks()[0].kind == TokenKind::BinInt) ==> has_prefix2(tok_text(o.input, o.iter.toks()[0].span)))
+        &&& self.line == o.line + (if o.cur().kind == TokenKind::Eol { 1int } else { 0int })
+        &&& self.line_base() == o.line_base()
+        &&& self.ginv()
+        &&& valid_span(o.input, o.cur().span)
+        &&& (o.cur().kind != TokenKind::Eof ==> self.iter.pos() < self.iter.all().len() && o.cur().span.end <= self.cur().span.start)
+        &&& (o.cur().kind == TokenKind::Eof ==> self.iter.pos() == self.iter.all().len())
+    }
+    /// what parsing an expression leaves alone: everything but the token position and the recorded output reads
+    spec fn expr_frame(&self, o: &Self) -> bool {
+        &&& self.input == o.input && self.signals == o.signals && self.virtual_signals == o.virtual_signals
+        &&& self.expected_inputs == o.expected_inputs && self.vars == o.vars
+        &&& self.iter.all() == o.iter.all() && self.iter.pos() >= o.iter.pos()
+        &&& self.line == o.line && self.line_base() == o.line_base()
+    }
+    /// what parsing a data row leaves alone: everything but the token position and the recorded reads / C columns
+    spec fn row_frame(&self, o: &Self) -> bool {
+        &&& self.input == o.input && self.signals == o.signals && self.virtual_signals == o.virtual_signals && self.vars == o.vars
+        &&& self.iter.all() == o.iter.all() && self.iter.pos() >= o.iter.pos()
+        &&& self.line == o.line && self.line_base() == o.line_base()
+    }
+    /// every recorded declaration carries a location inside the text
+    spec fn vs_spans_valid(&self) -> bool {
+        forall|k: &str| #[trigger] self.virtual_signals@.contains_key(k) ==> valid_span(self.input, self.virtual_signals@[k].0)
+    }
+    /// statement-level invariant
+    spec fn sinv(&self) -> bool { self.pinv() && self.vs_spans_valid() }
+    /// what parsing a block leaves alone: the text, the header, the open scopes (a nested block's own scope is gone again)
+    spec fn block_frame(&self, o: &Self) -> bool {
+        &&& self.input == o.input && self.signals == o.signals
+        &&& self.vars.map.wf() && self.vars.map.frame_stack@ == o.vars.map.frame_stack@
+        &&& self.vs_spans_valid()
+        &&& self.iter.all() == o.iter.all() && self.iter.pos() >= o.iter.pos()
+        &&& self.line_base() == o.line_base()
     }
 }
 
@@ -75,6 +118,13 @@ fn verif_strip_prefix2(s: &str) -> (r: &str)
 {
     &s[2..]
 }
+// [A-std] digits without a sign never parse to a negative number
+#[verifier::external_body]
+proof fn axiom_unsigned_literal(text: &str, k: TokenKind)
+    requires unsigned_text(text, k)
+    ensures lit_value(text, k) matches Some(v) ==> v >= 0
+{
+}
 // N9 [A-std]: i64::from_str_radix; panics unless 2 <= radix <= 36
 #[verifier::external_body]
 fn verif_from_str_radix(s: &str, radix: u32) -> (r: Result<i64, core::num::ParseIntError>)
@@ -82,18 +132,6 @@ fn verif_from_str_radix(s: &str, radix: u32) -> (r: Result<i64, core::num::Parse
     ensures match r { Ok(n) => radix_value(s, radix) == Some(n), Err(_) => radix_value(s, radix) is None },
 {
     i64::from_str_radix(s, radix)
-}
-
-impl<'a> Parser<'a> {
-    /// number of tokens consumed since `o`
-    spec fn consumed(&self, o: &Self) -> int { o.iter.toks().len() - self.iter.toks().len() }
-    /// what parsing an expression leaves alone: everything but the token position and the recorded output reads;
-    /// the remaining tokens are a suffix of the previous ones
-    spec fn expr_frame(&self, o: &Self) -> bool {
-        &&& self.input == o.input && self.signals == o.signals && self.virtual_signals == o.virtual_signals
-        &&& self.expected_inputs == o.expected_inputs && self.vars == o.vars
-        &&& 0 <= self.consumed(o) && self.iter.toks() =~= o.iter.toks().skip(self.consumed(o))
-    }
 }
 
 /// every operand of the operator sequence is a well-formed expression
@@ -115,5 +153,33 @@ proof fn lemma_tree_to_expr_wf(t: BinOpTree)
         }
         BinOpTree::Atom(e) => { assert(t.flat()[0] == Tok::A(e)); }
         _ => {}
+    }
+}
+
+proof fn lemma_data_width_push(data: Seq<DataEntry>, x: DataEntry)
+    ensures data_width(data.push(x)) == data_width(data) + entry_width(x)
+{
+    assert(data.push(x).drop_last() =~= data);
+}
+
+// [A-std] &str obeys the hash-table key model, and two &str with the same contents are the same key
+#[verifier::external_body]
+proof fn axiom_str_key_model()
+    ensures
+        vstd::std_specs::hash::obeys_key_model::<&str>(),
+        forall|a: &str, b: &str| #![trigger a@, b@] a@ == b@ ==> a == b,
+{
+}
+
+/// a block stays well formed when a well-formed statement is appended
+proof fn lemma_block_push(b: Seq<Stmt>, s: Stmt, w: int, p: spec_fn(int) -> bool)
+    requires stmts_wf(b), stmts_shape(b, w, p), stmt_wf(s), stmt_shape(s, w, p)
+    ensures stmts_wf(b.push(s)), stmts_shape(b.push(s), w, p)
+{
+    assert forall|i: int| 0 <= i < b.push(s).len() implies stmt_wf(#[trigger] b.push(s)[i]) by {
+        if i < b.len() { assert(b.push(s)[i] == b[i]); }
+    }
+    assert forall|i: int| 0 <= i < b.push(s).len() implies stmt_shape(#[trigger] b.push(s)[i], w, p) by {
+        if i < b.len() { assert(b.push(s)[i] == b[i]); }
     }
 }
